@@ -287,6 +287,12 @@ def run_check(pid, tier, seed=0, workers=None, only_job=None):
     print("%s tier=%s jobs=%d paths=%d cut=%d forks=%d queries=%d solver_s=%.1f asserts=%d proved=%d wall=%.1fs complete=%s"
           % (pid, tier, len(jobs), total.paths, total.cut_paths, total.forks, total.queries, total.solver_s,
              total.asserts_reached, total.proved, wall, complete))
+    if os.environ.get("VERIF_JOBSTATS") or capped:
+        for j, pj in enumerate(per_job):
+            st = pj["stats"]
+            print("  job %-40s paths=%-8d cut=%-8d refuted=%-4d exc=%-3d cpu=%.0fs %s"
+                  % (jobs[j].get("name"), st.paths, st.cut_paths, st.refuted, st.exceptions, pj["wall"],
+                     "" if not capped else "(run capped)"))
     for line in known_lines:
         print(line)
     for m in msgs:
